@@ -10,6 +10,17 @@ COMMON_NOTE = ("Trusted base: pyvc engine (AST transform T1-T3 of the real sourc
                "lift to C), A3 (integer powers), A4 (path forking via z3), A5 (numpy shim contracts, listed per run in evidence.trusted_base). ")
 
 CLAIMED = {
+    "C26": dict(
+        category="proof",
+        text=("All ekore entry points (gamma_ns / gamma_singlet unpolarised, polarised, time-like; QED grids; A_singlet / A_non_singlet of the three matching variants) and everything below them "
+              "(splitting functions as1..as4 incl. both N3LO parametrisations and variation indices, aem1/aem2/as1aem1, matching coefficients as1..as3, harmonic sums, g- and log-functions) are "
+              "executed with a symbolic Mellin moment N and symbolic log L, nf 3-6, every order and sector; only cern_polygamma is replaced by its contract. Each of the 5148 returned entries "
+              "(30 000 term nodes) is typed by a conjugation calculus (even / odd; I odd; real-analytic functions preserve even; Re, Im, abs, conj handled) and must be even: f(conj N) = conj f(N), "
+              "hence real at real N. Value-dependent branches (the N = 1 special cases) are explored path by path and their conditions must be conjugation invariant."),
+        note=COMMON_NOTE + "Syntactic typing: sound, not complete (an untypable entry fails). Assumed: polygamma_k, exp, ln, sqrt ... real-analytic away from poles and cuts (C24).",
+        technique="contract-based deductive verification: symbolic execution of the real code + a sound syntactic conjugation-parity type system over the resulting terms",
+        design_ref="DESIGN.md section 2, C26",
+    ),
     "C37": dict(
         category="proof",
         text=("Map clause by induction over the history with an EXHAUSTIVELY checked step: every state satisfying the representation invariant (disk = model with one header and one "
